@@ -177,7 +177,7 @@ Inductive after_case (s : state) (i : nat) : bool -> bool -> state -> Prop :=
     after_case s i false early (set_nd (set_err s) i (with_ph (count_done (with_st (nd s i) NCancel)) fphase))
 | AC_cancel early : (early = true \/ (st (nd s i) <> NSuccess /\ st (nd s i) <> NCancel)) -> timedout s = false ->
     canceled s = true ->
-    after_case s i false early (set_nd (set_err s) i (with_ph (count_done (nd s i)) fphase))
+    after_case s i false early (set_nd (set_err s) i (with_ph (count_done (with_st (nd s i) NCancel)) fphase))
 | AC_retry early : (early = true \/ (st (nd s i) <> NSuccess /\ st (nd s i) <> NCancel)) -> timedout s = false ->
     canceled s = false -> rc (nd s i) < rlimit (steps c i) ->
     after_case s i false early
@@ -199,7 +199,7 @@ Proof.
   assert (Hgen : forall side : early = true \/ (st (nd s i) <> NSuccess /\ st (nd s i) <> NCancel),
     after_case s i false early
       (if timedout s then set_nd (set_err s) i (with_ph (count_done (with_st (nd s i) NCancel)) fphase)
-       else if canceled s then set_nd (set_err s) i (with_ph (count_done (nd s i)) fphase)
+       else if canceled s then set_nd (set_err s) i (with_ph (count_done (with_st (nd s i) NCancel)) fphase)
        else if rc (nd s i) <? rlimit (steps c i)
             then set_nd s i {| st := st (nd s i); rc := S (rc (nd s i)); dc := dc (nd s i); att := att (nd s i);
                                ph := PRetryWait; stale := stale (nd s i); outs := outs (nd s i) |}
